@@ -3,6 +3,7 @@
    pagination walk is complete.  Combine PrefixProofs, ListExact and WalkProofs. *)
 From GF Require Import Base.Bytes Base.SortedMap Model.Prefix Model.Mem Model.MemWalk Spec.ListSpec
   Proofs.BytesFacts Proofs.SortedMapFacts Proofs.PrefixProofs Proofs.ListExact Proofs.WalkProofs.
+From Coq Require Import Lia.
 Open Scope Z_scope.
 
 Definition key_ok (delim : option N) (k : list N) : Prop :=
@@ -14,7 +15,36 @@ Definition pre_ok (delim : option N) (pre : list N) : Prop :=
 Lemma match_eq_classify pre delim k : pre_ok delim pre -> key_ok delim k ->
   prefix_match pre delim k = classify pre delim k.
 Proof.
-Admitted.
+  destruct delim as [d|]; unfold pre_ok, key_ok; intros Hp Hk.
+  - destruct Hk as [Hs He]. apply match_eq_classify_delim; assumption.
+  - apply match_eq_classify_nodelim.
+Qed.
+
+(* ---- helpers for list_exact ---- *)
+
+Lemma live_keys_in items k : In k (live_keys items) -> In k (map fst items).
+Proof.
+  unfold live_keys. rewrite in_flat_map. intros [[k' o] [Hin H]]. cbn [fst snd] in H.
+  destruct (o_data o) as [v|]; [|contradiction].
+  destruct (vd_marker v); [contradiction|].
+  destruct H as [H|[]]. subst k'. apply in_map_iff. exists (k, o). split; [reflexivity|exact Hin].
+Qed.
+
+Lemma flat_map_ext_in' {A B} (f g : A -> list B) l :
+  (forall a, In a l -> f a = g a) -> flat_map f l = flat_map g l.
+Proof.
+  induction l as [|a l IH]; intros H; [reflexivity|]. cbn [flat_map].
+  rewrite (H a (or_introl eq_refl)), IH; [reflexivity|].
+  intros b Hb. apply H. right. exact Hb.
+Qed.
+
+Lemma match_eq_classify_live pre delim items :
+  pre_ok delim pre -> Forall (key_ok delim) (map fst items) ->
+  forall k, In k (live_keys items) -> prefix_match pre delim k = classify pre delim k.
+Proof.
+  intros Hp Hk k Hin. apply match_eq_classify; [exact Hp|].
+  rewrite Forall_forall in Hk. apply Hk. apply live_keys_in. exact Hin.
+Qed.
 
 (* C03: Contents and CommonPrefixes of the unpaginated listing are exactly the spec's *)
 Lemma list_exact pre delim items :
@@ -22,7 +52,13 @@ Lemma list_exact pre delim items :
   map fst (lr_contents (unpaged pre delim items)) = spec_contents pre delim (live_keys items) /\
   lr_prefixes (unpaged pre delim items) = spec_prefixes pre delim (live_keys items).
 Proof.
-Admitted.
+  intros Hd Hp Hk.
+  pose proof (match_eq_classify_live pre delim items Hp Hk) as Hl.
+  rewrite (unpaged_contents pre delim items Hd), (unpaged_prefixes pre delim items Hd).
+  unfold spec_contents, spec_prefixes, commons. split.
+  - apply filter_ext_in. intros k Hin. rewrite (Hl k Hin). reflexivity.
+  - f_equal. apply flat_map_ext_in'. intros k Hin. rewrite (Hl k Hin). reflexivity.
+Qed.
 
 (* keys come out in strictly ascending byte order *)
 Fixpoint ascending (l : list (list N)) : Prop :=
@@ -30,18 +66,154 @@ Fixpoint ascending (l : list (list N)) : Prop :=
   | a :: ((b :: _) as l') => bltb a b = true /\ ascending l'
   | _ => True
   end.
+(* strongly ascending: every element is below every later one *)
+Fixpoint sasc (l : list (list N)) : Prop :=
+  match l with [] => True | a :: l' => Forall (fun b => bltb a b = true) l' /\ sasc l' end.
+
+Lemma lb_forall {V} k (m : list (list N * V)) :
+  lb k m -> Forall (fun b => bltb k b = true) (map fst m).
+Proof.
+  induction m as [|[k' v] m IH]; cbn [lb map fst]; intros H; constructor; [tauto|].
+  apply IH. tauto.
+Qed.
+
+Lemma sorted_sasc {V} (m : list (list N * V)) : sorted m -> sasc (map fst m).
+Proof.
+  induction m as [|[k v] m IH]; cbn [sorted map fst sasc]; [trivial|]. intros [H1 H2].
+  split; [apply lb_forall; exact H1|apply IH; exact H2].
+Qed.
+
+Lemma sasc_live items : sasc (map fst items) -> sasc (live_keys items).
+Proof.
+  induction items as [|[k o] rest IH]; [trivial|].
+  cbn [map fst sasc]. intros [H1 H2]. unfold live_keys. cbn [flat_map fst snd].
+  fold (live_keys rest). specialize (IH H2).
+  destruct (o_data o) as [v|]; [|exact IH]. destruct (vd_marker v); [exact IH|].
+  cbn [app sasc]. split; [|exact IH].
+  apply Forall_forall. intros b Hb. rewrite Forall_forall in H1. apply H1.
+  apply live_keys_in. exact Hb.
+Qed.
+
+Lemma sasc_filter f l : sasc l -> sasc (filter f l).
+Proof.
+  induction l as [|a l IH]; [trivial|]. cbn [sasc filter]. intros [H1 H2].
+  destruct (f a); [|apply IH; exact H2]. cbn [sasc]. split; [|apply IH; exact H2].
+  apply Forall_forall. intros b Hb. apply filter_In in Hb. rewrite Forall_forall in H1.
+  apply H1. tauto.
+Qed.
+
+Lemma sasc_ascending l : sasc l -> ascending l.
+Proof.
+  induction l as [|a l IH]; [intros _; exact I|]. cbn [sasc]. intros [H1 H2].
+  destruct l as [|b l]; [exact I|].
+  cbn [ascending]. split; [inversion H1; assumption|apply IH; exact H2].
+Qed.
+
+Lemma sasc_app_r l1 l2 : sasc (l1 ++ l2) -> sasc l2.
+Proof.
+  induction l1 as [|a l1 IH]; cbn [app sasc]; [trivial|]. intros [_ H]. apply IH. exact H.
+Qed.
+
+Lemma sasc_mid l2 k2 l3 k : sasc (l2 ++ k2 :: l3) -> In k l2 -> bltb k k2 = true.
+Proof.
+  induction l2 as [|a l2 IH]; intros H Hin; [destruct Hin|].
+  cbn [app sasc] in H. destruct H as [H1 H2]. destruct Hin as [->|Hin].
+  - rewrite Forall_forall in H1. apply H1. apply in_or_app. right. left. reflexivity.
+  - apply IH; assumption.
+Qed.
+
 Lemma listed_keys_ascending pre delim (items : list (list N * obj)) :
   sorted items -> ListExact.data_some items ->
   ascending (map fst (lr_contents (unpaged pre delim items))).
 Proof.
-Admitted.
+  intros Hs Hd. rewrite (unpaged_contents pre delim items Hd).
+  apply sasc_ascending, sasc_filter, sasc_live, sorted_sasc. exact Hs.
+Qed.
+
+(* ---- byte-string facts for contiguity ---- *)
+
+(* strings between two strings sharing a prefix share that prefix *)
+Lemma prefixb_between p : forall a b c, prefixb p a = true -> prefixb p c = true ->
+  bltb a b = true -> bltb b c = true -> prefixb p b = true.
+Proof.
+  induction p as [|x p IH]; intros a b c Ha Hc Hab Hbc; [reflexivity|].
+  destruct a as [|x1 a]; [discriminate|]. destruct c as [|x2 c]; [discriminate|].
+  cbn [prefixb] in Ha, Hc. apply andb_prop in Ha as [Ex1 Ha]. apply andb_prop in Hc as [Ex2 Hc].
+  apply N.eqb_eq in Ex1, Ex2. subst x1 x2.
+  destruct b as [|y b]; [cbn [bltb] in Hab; discriminate|].
+  cbn [bltb] in Hab, Hbc. cbn [prefixb]. revert Hab Hbc.
+  destruct (N.ltb x y) eqn:Exy; destruct (N.ltb y x) eqn:Eyx; intros Hab Hbc; try discriminate.
+  - apply N.ltb_lt in Exy, Eyx. lia.
+  - apply N.ltb_ge in Exy, Eyx. assert (x = y) by lia. subst y. rewrite N.eqb_refl. cbn [andb].
+    exact (IH a b c Ha Hc Hab Hbc).
+Qed.
+
+Lemma skipn_app_len {A} (a b : list A) : skipn (length a) (a ++ b) = b.
+Proof. induction a as [|x a IH]; [reflexivity|]. cbn [length app skipn]. exact IH. Qed.
+
+(* the first occurrence of d depends only on the bytes up to and including it *)
+Lemma index_byte_firstn d s : forall i, index_byte d s = Some i -> forall t,
+  index_byte d (firstn (S i) s ++ t) = Some i /\
+  firstn (S i) (firstn (S i) s ++ t) = firstn (S i) s.
+Proof.
+  induction s as [|c s IH]; intros i H t; [discriminate|].
+  cbn [index_byte] in H. destruct (N.eqb c d) eqn:E.
+  - inversion H; subst. change (firstn 1 (c :: s)) with [c]. cbn [app index_byte].
+    rewrite E. split; reflexivity.
+  - destruct (index_byte d s) as [j|]; [|discriminate]. inversion H; subst.
+    destruct (IH j eq_refl t) as [E1 E2].
+    change (firstn (S (S j)) (c :: s)) with (c :: firstn (S j) s). cbn [app index_byte].
+    rewrite E, E1. split; [reflexivity|].
+    change (firstn (S (S j)) (c :: firstn (S j) s ++ t)) with (c :: firstn (S j) (firstn (S j) s ++ t)).
+    rewrite E2. reflexivity.
+Qed.
+
+(* every key extending a common prefix is classified into that common prefix *)
+Lemma classify_common_ext pre d k1 p k :
+  classify pre (Some d) k1 = MCommon p -> prefixb p k = true ->
+  classify pre (Some d) k = MCommon p.
+Proof.
+  unfold classify. destruct (prefixb pre k1) eqn:Hpk; [|discriminate].
+  destruct (index_byte d (skipn (length pre) k1)) as [i|] eqn:Hi; [|discriminate].
+  intros H Hp.
+  assert (Hpe : p = pre ++ firstn (S i) (skipn (length pre) k1)) by congruence. clear H.
+  assert (exists t, k = p ++ t) as [t ->] by (eexists; apply prefixb_app; exact Hp).
+  clear Hp. subst p. rewrite <- app_assoc. rewrite prefixb_app_r, skipn_app_len.
+  destruct (index_byte_firstn d _ i Hi t) as [E1 E2]. rewrite E1, E2. reflexivity.
+Qed.
+
+Lemma nodelim_no_common pre k p : prefix_match pre None k <> MCommon p.
+Proof.
+  unfold prefix_match. destruct pre as [|c pre]; [discriminate|].
+  destruct (prefixb (c :: pre) k); discriminate.
+Qed.
 
 (* keys rolled up into one common prefix are contiguous in a sorted map (domain) *)
 Lemma domain_groups_contiguous pre delim (objs : list (list N * obj)) :
   sorted objs -> pre_ok delim pre -> Forall (key_ok delim) (map fst objs) ->
   groups_contiguous pre delim (map fst objs).
 Proof.
-Admitted.
+  intros Hs Hp Hk l1 k1 l2 k2 l3 p E M1 M2 k Hin.
+  destruct delim as [d|]; [|exfalso; exact (nodelim_no_common _ _ _ M1)].
+  rewrite Forall_forall in Hk.
+  assert (I1 : In k1 (map fst objs))
+    by (rewrite E; apply in_or_app; right; left; reflexivity).
+  assert (I2 : In k2 (map fst objs))
+    by (rewrite E; apply in_or_app; right; right; apply in_or_app; right; left; reflexivity).
+  assert (I0 : In k (map fst objs))
+    by (rewrite E; apply in_or_app; right; right; apply in_or_app; left; exact Hin).
+  rewrite (match_eq_classify pre (Some d) k1 Hp (Hk _ I1)) in M1.
+  rewrite (match_eq_classify pre (Some d) k2 Hp (Hk _ I2)) in M2.
+  rewrite (match_eq_classify pre (Some d) k Hp (Hk _ I0)).
+  apply (classify_common_ext pre d k1 p k M1).
+  destruct (classify_common_is_prefix _ _ _ _ M1) as [P1 _].
+  destruct (classify_common_is_prefix _ _ _ _ M2) as [P2 _].
+  pose proof (sorted_sasc objs Hs) as Sa. rewrite E in Sa. apply sasc_app_r in Sa.
+  cbn [sasc] in Sa. destruct Sa as [F Sa].
+  apply (prefixb_between p k1 k k2 P1 P2).
+  - rewrite Forall_forall in F. apply F. apply in_or_app. left. exact Hin.
+  - eapply sasc_mid; eassumption.
+Qed.
 
 (* C04 on the domain: the walk terminates and its pages concatenate to the unpaginated listing *)
 Theorem walk_complete_domain pre delim mk objs :
@@ -54,7 +226,9 @@ Theorem walk_complete_domain pre delim mk objs :
     Forall (fun r => entries r <= mk) pages /\
     (exists r, last (map Some pages) None = Some r /\ lr_truncated r = false).
 Proof.
-Admitted.
+  intros Hmk Hs Hd Hne Hp Hk. apply walk_complete_nonempty_keys; try assumption.
+  apply domain_groups_contiguous; assumption.
+Qed.
 
 Print Assumptions list_exact.
 Print Assumptions walk_complete_domain.
